@@ -324,7 +324,21 @@ def cases(draw):
         last['pos'] = last['pos'][:1]
     names = ([s['name'] for s in sources] + [b['name'] for b in case['cblocks']]
              + [b['fb']['name'] for b in case['cblocks'] if b.get('fb')])
-    case['order'] = draw(st.permutations(names))
+    case['order'] = list(draw(st.permutations(names)))
+    if draw(st.integers(0, 24)) == 0:
+        # a big circuit: a long chain of inverters behind the first source (the first evaluation and
+        # every reaction to a change take hundreds of evaluations, still one uninterrupted step)
+        nz = draw(st.sampled_from([160, 420]))
+        prev = sources[0]['name']
+        chain = []
+        for k in range(nz):
+            case['cblocks'].append({'name': f'z{k}', 'kind': 'Not', 'pos': [['blk', prev, 'name']],
+                                    'named': {}, 'fb': None})
+            prev = f'z{k}'
+            chain.append(prev)
+        if draw(st.booleans()):
+            chain.reverse()
+        case['order'] = chain + case['order'] if draw(st.booleans()) else case['order'] + chain
     bursts = []
     for _ in range(draw(st.integers(1, 6))):
         burst = []
